@@ -56,6 +56,9 @@ def strategy_case(draw: Any) -> Dict[str, Any]:
     else:
         case = draw(c16.strategy_case())
         case["mode"] = "valid"
+    # decoys: files named like this run's reports (and their ezodf backups) lying in the working directory, in $HOME and in a
+    # sibling of the output directory; a stale copy inside the output directory itself may be replaced, these may not be touched
+    case["decoys"] = draw(st.sampled_from(["none", "cwd", "cwd", "home", "all", "all"]))
     return case
 
 
@@ -113,28 +116,58 @@ def judge_log(out: Outcome, log_path: str, folder: str, outdir: str, label: str)
         raise RuntimeError("harness: audit hook did not start")
 
 
+def plant_decoys(case: Dict[str, Any], folder: str, outdir: str) -> Dict[str, Tuple[str, int]]:
+    """Create look-alike files outside the output directory; returns {path: (sha256, mtime_ns)}."""
+    mode = case.get("decoys") or "none"
+    if mode == "none":
+        return {}
+    label = cli.method_label(case.get("method"), case.get("schedule"), case["country"])
+    names = cli.expected_report_names(case["country"], label, case.get("prefix") or "")
+    names += [n + ".bak" for n in names] + ["rp2_full_report.ods", "input.ods.bak"]
+    places = [folder] if mode == "cwd" else [os.path.join(folder, "home")] if mode == "home" else [folder, os.path.join(folder, "home"), os.path.join(folder, "out_sibling")]
+    planted: Dict[str, Tuple[str, int]] = {}
+    for place in places:
+        os.makedirs(place, exist_ok=True)
+        for name in names:
+            path = os.path.join(place, name)
+            with open(path, "wb") as handle:
+                handle.write(b"PK\x03\x04 decoy " + name.encode() + b"\n")
+            os.utime(path, ns=(1_600_000_000_000_000_000, 1_600_000_000_000_000_000))
+            planted[path] = (_sha(path) or "", os.stat(path).st_mtime_ns)
+    if mode == "all":
+        # a stale report inside the output directory as well: replacing that one is legitimate
+        os.makedirs(outdir, exist_ok=True)
+        with open(os.path.join(outdir, names[0]), "wb") as handle:
+            handle.write(b"stale")
+    return planted
+
+
 def evaluate(case: Dict[str, Any]) -> Outcome:
     out = Outcome()
     out.nontrivial = True
     out.classes.add(f"{case['mode']}_{case['country']}")
+    out.classes.add(f"decoys_{case.get('decoys') or 'none'}")
     if case.get("from") or case.get("to"):
         out.classes.add("with_filter")
     folder = cli_common.work_dir("c18")
     try:
         log_path = os.path.join(folder, "audit.jsonl")
+        planted = plant_decoys(case, folder, os.path.join(folder, "out"))
+        home_env = {"HOME": os.path.join(folder, "home")} if planted else {}
         if case["mode"] == "invalid":
             ini, ods, extra_args, env = c12.build(case, folder)
             outdir = os.path.join(folder, "out")
             args = cli.build_args(ini, ods, outdir, method=case.get("method") if not case["fault"]["kind"].startswith("cli_method") else None, lang=case.get("lang"), extra=extra_args)
             env_extra: Dict[str, Any] = {"CURRENCY_CODE": "usd", "LONG_TERM_CAPITAL_GAINS": str(case.get("long_term_days", 365))} if case["country"] == "generic" else {}
             env_extra.update(env)
+            env_extra.update(home_env)
             before = {p: (_sha(p), os.stat(p).st_mtime_ns if os.path.exists(p) else None) for p in (ini, ods)}
             result = cli.run_rp2(case["country"], args, cwd=folder, outdir=outdir, env_extra=env_extra, audit_log=log_path)
             label = f"rp2_{case['country']} on faulty input ({case['fault']['kind']})"
         else:
             ini, ods = filegen.materialize(case, folder)
             before = {p: (_sha(p), os.stat(p).st_mtime_ns) for p in (ini, ods)}
-            result, ini, ods, outdir = cli_common.run_case(case, folder, audit_log=log_path, paths=(ini, ods))
+            result, ini, ods, outdir = cli_common.run_case(case, folder, audit_log=log_path, paths=(ini, ods), env_extra=home_env)
             label = f"rp2_{case['country']} {c16.option_tuple(case)}"
             if result.rc != 0:
                 out.skipped = "valid_case_failed(C16)"
@@ -150,8 +183,16 @@ def evaluate(case: Dict[str, Any]) -> Outcome:
             if os.path.exists(path) and os.stat(path).st_mtime_ns != mtime:
                 out.fail("input_file_touched", f"{label}: modification time of {os.path.basename(path)} changed")
                 return out
+        for path, (digest, mtime) in planted.items():
+            if not os.path.exists(path):
+                out.fail("file_outside_output_removed", f"{label}: {os.path.relpath(path, folder)} (a look-alike of a report name outside the output directory) was deleted by the run")
+                return out
+            if _sha(path) != digest or os.stat(path).st_mtime_ns != mtime:
+                out.fail("file_outside_output_modified", f"{label}: {os.path.relpath(path, folder)} (outside the output directory) was modified by the run")
+                return out
         # anything new in the work folder besides inputs, audit log, output dir and ./log ?
         allowed = {"audit.jsonl", "log", os.path.basename(outdir), "input.ini", "input.ods", "input.xlsx", "out_base", "out_fault"}
+        allowed |= {"home", "out_sibling"} | {os.path.basename(p) for p in planted if os.path.dirname(p) == folder}
         strays = sorted(set(os.listdir(folder)) - allowed)
         if strays:
             out.fail("stray_file_in_working_directory", f"{label}: unexpected entries in the working directory: {strays}")
